@@ -123,6 +123,8 @@ SASLPREP_TABLE: Dict[str, Optional[str]] = {
     "\u0627\u0031": None,  # bidi check
     "\u00ad": "",  # maps to nothing at all (B.1) -- not an RFC example, follows from B.1
     "x\u00a0y": "x y",  # non-ASCII space -> SPACE (C.1.2)
+    # white space for str.isspace() but NOT in C.1.2: prohibited control characters (C.2.1: 0000-001F; C.2.2: 0085, 2028)
+    "x\ty": None, "x\x1fy": None, "x\u0085y": None, "x\u2028y": None,
 }
 
 
@@ -297,7 +299,9 @@ class Handler:
         c = self.cfg
         d: Dict[str, Any] = {"Filter": N("Standard"), "V": c.V, "R": c.R}
         if c.V in (2, 4, 5) and c.explicit_length:
-            d["Length"] = c.bits
+            # True: the key length; an integer: a stale top-level /Length (V4 takes the key length from its crypt filter,
+            # ISO 32000-1 table 20: /Length applies "only if V is 2 or 3")
+            d["Length"] = c.bits if c.explicit_length is True else int(c.explicit_length)
         d["O"] = HexStr(self.O)
         d["U"] = HexStr(self.U)
         d["P"] = (self.P & 0xFFFFFFFF) if self.p_unsigned else self.P
